@@ -8,7 +8,7 @@ path `p0.2.1` (root 0, child 2, child 1).  Child indices are reduced modulo the 
 
 ```
 reset
-new V | del R | set A V
+new V | del R | set A V                      (del leaves the last root alone: skip:last; reset destroys everything)
 pushb A V | pushf A V | ins A I V            push_back / push_front / insert(it, value)
 pushbt A B | pushft A B | inst A I B         the same with std::move(node B)
 popb A K | popf A K | rel A I K              pop_back / pop_front / release(it); K=1: result becomes a new root
@@ -25,6 +25,8 @@ obsall                                       every observer on every node (and o
 ```
 
 A line starting with `M` is executed on a second forest whose value type is move-only (`skip:copy` for the copying operations).
+
+A known command whose node operands are well formed but do not all exist answers `skip:nonode`.
 
 Result: `ok a=<path> [b=<path>] [some|none] | <dump>` for mutating operations, `q …` for observers, `skip:<why>` when
 the operation is not applicable (forest full, too big, empty child list, excluded misuse), `bad-op` for malformed lines.
@@ -83,6 +85,35 @@ def sel (F : List PT) (tok : String) : Option Path :=
       let ps := pathsF 0 F
       if ps.isEmpty then none else ps[n % ps.length]?
     | none => none
+
+/-- a selector token is well formed (`p<nat>(.<nat>)*` or a natural number) -/
+def selWellFormed (tok : String) : Bool :=
+  if tok.startsWith "p" then (parsePath tok).isSome else tok.toNat?.isSome
+
+def unaryCmds : List String :=
+  ["clear", "sort", "cpc", "mvc", "pre", "toroot", "depth", "level", "map", "front", "back", "kids", "out"]
+def valuedCmds : List String := ["set", "pushb", "pushf", "popb", "popf", "erase", "cposk", "sortp", "mkl"]
+def binaryCmds : List String :=
+  ["pushbt", "pushft", "swap", "cpa", "mva", "cpos", "eq", "pushbv", "pushfv", "setv", "pushbmv", "pushfmv", "setmv"]
+def fourACmds : List String := ["ins", "rel", "eraser"]
+def fourABCmds : List String := ["inst", "insv"]
+
+/-- the tokens of a line that select nodes (`none`: not a known node command of that arity) -/
+def nodeOperands (toks : List String) : Option (List String) :=
+  match toks with
+  | [cmd, a] => if unaryCmds.contains cmd then some [a] else none
+  | [cmd, a, b] =>
+    if valuedCmds.contains cmd then some [a] else if binaryCmds.contains cmd then some [a, b] else none
+  | [cmd, a, _, y] =>
+    if fourACmds.contains cmd then some [a] else if fourABCmds.contains cmd then some [a, y] else none
+  | _ => none
+
+/-- a well-formed line whose node operands are all well formed but do not all exist (empty forest, or an explicit path that is
+not there any more) is not applicable: `skip:nonode` -/
+def missingNode (F : List PT) (toks : List String) : Bool :=
+  match nodeOperands toks with
+  | some sels => sels.all selWellFormed && sels.any (fun t => (sel F t).isNone)
+  | none => false
 
 def count (F : List PT) : Nat := sizeL F
 
@@ -179,6 +210,7 @@ def handle (s : St) (toks : List String) : St × String :=
   let F := s.forest
   let full := F.length ≥ maxRoots
   let big := count F ≥ growCap
+  if missingNode F toks then (s, "skip:nonode") else
   match toks with
   | ["reset"] => (St.init, "ok")
   | ["obsall"] => (s, obsAll s)
@@ -188,7 +220,7 @@ def handle (s : St) (toks : List String) : St × String :=
     | none => (s, "bad-op")
   | ["del", r] =>
     match r.toNat? with
-    | some r => if F.isEmpty then (s, "skip:empty") else
+    | some r => if F.isEmpty then (s, "skip:empty") else if F.length == 1 then (s, "skip:last") else
         let r := r % F.length
         runOp s (.del r) s!"ok r={r}"
     | none => (s, "bad-op")
